@@ -93,9 +93,21 @@ Proof.
 Qed.
 
 (* ------------------------------------------------------------------ the invariant *)
+Definition hello_free (l : list smsg) : Prop := forall u v, ~ In (SHello u v) l.
+Lemma hello_free_nil : hello_free [].
+Proof. intros u v []. Qed.
+Lemma enqueue_incl q m x : In x (enqueue q m) -> In x q \/ x = m.
+Proof.
+  unfold enqueue. destruct (is_chat_refresh m && existsb is_chat_refresh q); [now left|].
+  intros H. apply in_app_or in H as [H|[H|[]]]; auto.
+Qed.
+Lemma hello_free_enqueue q m : hello_free q -> (forall u v, m <> SHello u v) -> hello_free (enqueue q m).
+Proof. intros Hq Hm u v Hin. apply enqueue_incl in Hin as [Hin|Hin]; [exact (Hq u v Hin)|exact (Hm u v (eq_sym Hin))]. Qed.
+
 Record RIx (h : hub) (g : ghost) (x : N) (s : session) : Prop := {
   ri_bind : forall c, s_conn s = Some c -> g_bind g c = Some x;
   ri_vconn : is_virtual (s_kind s) = true -> s_conn s = None;
+  ri_hf : hello_free (s_pending s);
   ri_rep : is_virtual (s_kind s) = false ->
            match s_room s with
            | Some k => snd k <> 0 /\ exists d, replayT (s_pending s) (g_rep g x) = Some (snd k, d) /\
@@ -110,11 +122,12 @@ Record RI (h : hub) (g : ghost) : Prop := {
 
 (* ------------------------------------------------------------------ the relation *)
 Definition pend_eq (s s' : session) : Prop :=
-  (s_conn s <> None -> s_pending s' = s_pending s) /\ (forall v, replayT (s_pending s') v = replayT (s_pending s) v).
+  (s_conn s <> None -> s_pending s' = s_pending s) /\ (forall v, replayT (s_pending s') v = replayT (s_pending s) v) /\
+  (hello_free (s_pending s) -> hello_free (s_pending s')).
 Definition olds (h0 : hub) (x : N) (s' : session) : Prop :=
   exists s, get_sess h0 x = Some s /\ s_kind s' = s_kind s /\ s_conn s' = s_conn s /\
             (is_virtual (s_kind s) = true \/ s_room s' = s_room s) /\ pend_eq s s'.
-Definition virts (s' : session) : Prop := is_virtual (s_kind s') = true /\ s_conn s' = None.
+Definition virts (s' : session) : Prop := is_virtual (s_kind s') = true /\ s_conn s' = None /\ hello_free (s_pending s').
 Definition nrP (ex : N -> Prop) (h0 : hub) (ss : alist session) (rs : list ((N * N) * room)) (nx : N) : Prop :=
   (forall x s', aget ss x = Some s' -> ex x \/ olds h0 x s' \/ virts s') /\
   (forall k r', pget rs k = Some r' -> exists r, room_of h0 k = Some r /\ r_transient r' = r_transient r) /\
@@ -124,9 +137,9 @@ Definition nres (ex : N -> Prop) (h0 : hub) (r : hub * list out) : Prop := NR ex
 Definition noex : N -> Prop := fun _ => False.
 
 Lemma pend_eq_refl s : pend_eq s s.
-Proof. split; auto. Qed.
+Proof. repeat split; auto. Qed.
 Lemma pend_eq_same s s' : s_pending s' = s_pending s -> pend_eq s s'.
-Proof. intros H. unfold pend_eq. rewrite H. auto. Qed.
+Proof. intros H. unfold pend_eq. rewrite H. repeat split; auto. Qed.
 
 Lemma nr_refl ex h : NR ex h h.
 Proof.
@@ -139,15 +152,16 @@ Lemma olds_next h0 x s s' :
   s_kind s' = s_kind s -> s_conn s' = s_conn s -> (is_virtual (s_kind s) = true \/ s_room s' = s_room s) -> pend_eq s s' ->
   olds h0 x s -> olds h0 x s'.
 Proof.
-  intros Hk Hc Hr [P1 P2] (s0 & H0 & K0 & C0 & R0 & [Q1 Q2]). exists s0. split; [exact H0|].
+  intros Hk Hc Hr (P1 & P2 & P3) (s0 & H0 & K0 & C0 & R0 & (Q1 & Q2 & Q3)). exists s0. split; [exact H0|].
   split; [congruence|]. split; [congruence|]. split.
   - destruct R0 as [V|R0]; [now left|]. destruct Hr as [V|Hr]; [left; congruence|right; congruence].
-  - split.
+  - split; [|split].
     + intros Hn. rewrite P1; [now apply Q1|congruence].
     + intros v. now rewrite P2, Q2.
+    + auto.
 Qed.
-Lemma virts_next s s' : s_kind s' = s_kind s -> s_conn s' = s_conn s -> virts s -> virts s'.
-Proof. intros Hk Hc [V C]. split; congruence. Qed.
+Lemma virts_next s s' : s_kind s' = s_kind s -> s_conn s' = s_conn s -> pend_eq s s' -> virts s -> virts s'.
+Proof. intros Hk Hc (_ & _ & P) (V & C & F). split; [congruence|]. split; [congruence|auto]. Qed.
 
 Lemma nr_trans ex h0 h1 h2 : NR ex h0 h1 -> NR ex h1 h2 -> NR ex h0 h2.
 Proof.
@@ -194,7 +208,7 @@ Proof.
   intros Hn Hs Hk Hc Hr Hp. apply nr_put_gen; [exact Hn|].
   destruct Hn as (S & _ & _). destruct (S x s Hs) as [E|[O|V]]; [now left| |].
   - right. left. eapply olds_next; eauto. now apply pend_eq_same.
-  - right. right. eapply virts_next; eauto.
+  - right. right. eapply virts_next; eauto. now apply pend_eq_same.
 Qed.
 Lemma nr_put_pend ex h0 h x s s' :
   NR ex h0 h -> get_sess h x = Some s -> s_kind s' = s_kind s -> s_conn s' = s_conn s ->
@@ -352,8 +366,10 @@ Proof.
       apply qouts_cons; [|apply qouts_nil]. intros c' m' E'. injection E' as <- <-. exact M.
     - split; cbn [fst snd]; [|apply qouts_nil].
       eapply nr_put_pend; [exact B|exact Hs|exact K|cbn; congruence|right; exact R|].
-      split; [intros Hn; congruence|]. intros v. cbn [s_pending sess_pending upd_sess].
-      rewrite replayT_enqueue_irr, P; auto. }
+      split; [intros Hn; congruence|]. split.
+      + intros v. cbn [s_pending sess_pending upd_sess]. rewrite replayT_enqueue_irr, P; auto.
+      + cbn [s_pending sess_pending upd_sess]. rewrite P. intros Hq. apply hello_free_enqueue; [exact Hq|].
+        intros u v ->. discriminate M. }
   destruct m; try discriminate Hm; cbv beta iota zeta; try (apply G; auto; reflexivity).
   destruct (filter_seen (s_seen s) l) as [keep seen']. destruct keep as [|e keep].
   - split; cbn [fst snd]; [eapply nr_put_old; eauto|apply qouts_nil].
